@@ -383,11 +383,77 @@ func TestC15Recovery(t *testing.T) {
 		})
 		return
 	}
+	// Several sources with leftover stage directories: every recovery is held at its first
+	// file-system step; once nothing moves any more, each of those sources has to answer 503
+	// (a source whose recovery has not even begun is no less "still recovering").
+	runAll := func(n int) (bad string) {
+		synctest.Test(t, func(t *testing.T) {
+			var r *recvRig
+			release := make(chan bool)
+			var held atomic.Int64
+			var names []string
+			for i := 0; i < n; i++ {
+				names = append(names, fmt.Sprintf("src%d", i))
+			}
+			r = newRecvRig(nil, nil, func(root string, dirs *sts.ServerDirs) {
+				now := time.Now()
+				for _, source := range names {
+					st := filepath.Join(dirs.Stage, source)
+					data := "AAAABBBB"
+					vh.WriteFileAt(filepath.Join(st, "a.part"), []byte(data), now)
+					cmp := &sts.Partial{Name: "a", Size: int64(len(data)), Hash: vh.MD5([]byte(data)), Source: source,
+						Parts: []*sts.ByteRange{{Beg: 0, End: 4}, {Beg: 4, End: 8}}}
+					b, _ := json.Marshal(cmp)
+					vh.WriteFileAt(filepath.Join(st, "a.cmp"), b, now)
+				}
+				vos.Hook = func(op, p1, p2 string) error {
+					if strings.HasPrefix(p1, root) && onStack("stage.(*Stage).Recover") {
+						held.Add(1)
+						<-release // held here until the probes are done
+					}
+					return nil
+				}
+			})
+			defer r.close()
+			r.client.Timeout = 30 * time.Second
+			time.Sleep(time.Second)
+			synctest.Wait() // nothing moves any more: every recovery that could start is held
+			for _, source := range names {
+				status, _, err := r.do(rawReq{Method: "GET", Path: "/partials?v=1", Headers: map[string]string{"X-STS-SrcName": source}})
+				if err != nil || status != 503 {
+					bad = fmt.Sprintf("%d sources have a leftover stage directory, %d start-up recoveries are under way (each held at its first file-system step) and none has finished: GET /partials of source %s is answered %d (err %v), not 503 (unavailable)", n, held.Load(), source, status, err)
+					break
+				}
+			}
+			vos.Hook = nil
+			close(release)
+			for i := 0; i < 120; i++ {
+				synctest.Wait()
+				allReady := true
+				for _, gk := range r.app.server.VerifGateKeepers() {
+					allReady = allReady && gk.Ready()
+				}
+				if allReady {
+					break
+				}
+				time.Sleep(time.Second)
+			}
+		})
+		return
+	}
 	var rc struct {
 		Source string `json:"source"`
 		At     int    `json:"at"`
+		All    int    `json:"all_sources"`
 	}
 	if vh.ReplaySpec(&rc) {
+		if rc.All > 0 {
+			if bad := runAll(rc.All); bad != "" {
+				rep.Violate("", bad, rc)
+			}
+			rep.Executions = 1
+			return
+		}
 		if rc.Source == "" {
 			rc.Source = "src"
 		}
@@ -398,6 +464,21 @@ func TestC15Recovery(t *testing.T) {
 		return
 	}
 	total, n := 0, 0
+	for _, k := range []int{2, 6, 9} {
+		n++
+		if !vh.Mine(n) {
+			continue
+		}
+		bad := runAll(k)
+		rep.Executions++
+		rep.States++
+		rep.Transitions += int64(k)
+		rep.Nontrivial++
+		rep.Outcome("all held")
+		if bad != "" {
+			rep.Violate("", bad, map[string]interface{}{"all_sources": k})
+		}
+	}
 	for _, source := range []string{"src", "site/inst"} {
 		tot, _ := run(source, 0)
 		rep.Executions++
@@ -420,7 +501,7 @@ func TestC15Recovery(t *testing.T) {
 		}
 	}
 	rep.Count("file-system steps of the recovery", int64(total))
-	rep.Bound = "for each of the source names src and site/inst (a name with a path separator, kept in the directory site--inst): a stage directory holding a complete unvalidated .part, a validated .wait held for it, a .full and an incomplete .part; the receiver is started on it, and the Stage.Recover() that serverApp.init itself starts is interrupted before each file-system mutation made by Recover itself and by the validators it waits for (renames of complete partials, validation renames) and a poll, partials, data, data-recovery and static request is issued through the real server at that instant: each must be answered 503"
+	rep.Bound = "2, 6 and 9 sources with leftover stage directories, every recovery held at its first file-system step, each source probed; and for each of the source names src and site/inst (a name with a path separator, kept in the directory site--inst): a stage directory holding a complete unvalidated .part, a validated .wait held for it, a .full and an incomplete .part; the receiver is started on it, and the Stage.Recover() that serverApp.init itself starts is interrupted before each file-system mutation made by Recover itself and by the validators it waits for (renames of complete partials, validation renames) and a poll, partials, data, data-recovery and static request is issued through the real server at that instant: each must be answered 503"
 }
 
 // onStack reports whether a function whose name contains fn is on the calling goroutine's stack.
